@@ -346,17 +346,283 @@ fn start_server(dir: &Path, refresh: bool, schema: &Value) -> Result<Server, Str
   Err(last)
 }
 
+// ---------------------------------------------------------------------------------------------
+// concurrent stream: acknowledged writes racing with /commit
+// ---------------------------------------------------------------------------------------------
+
+fn gen_concurrent(rng: &mut Rng) -> Value {
+  let clients = 3;
+  let mut version = 0u64;
+  let mut all = Vec::new();
+  for c in 0..clients {
+    let n = 24 + rng.below(12);
+    let mut ops: Vec<Value> = Vec::new();
+    let mut used: Vec<String> = Vec::new();
+    for k in 0..n {
+      version += 1;
+      let pick_old = !used.is_empty() && rng.chance(1, 6);
+      if pick_old && rng.chance(1, 2) {
+        let id = used[rng.below(used.len())].clone();
+        ops.push(json!({"delete": id}));
+        continue;
+      }
+      let id = if pick_old { used[rng.below(used.len())].clone() } else { format!("c{c}-{k}") };
+      let mut d = json!({"_id": id, "body": format!("{} v{version}", rng.pick(&WORDS))});
+      if rng.chance(1, 3) {
+        d["n"] = json!(rng.below(50));
+      }
+      used.push(id);
+      ops.push(if rng.chance(1, 4) { json!({"bulk": d}) } else { json!({"add": d}) });
+    }
+    all.push(Value::Array(ops));
+  }
+  json!({"kind": "concurrent", "schema": 0, "refresh_on_commit": rng.chance(1, 3), "clients": all, "staged_rounds": 5 + rng.below(4)})
+}
+
+/// pause point control for the staged rounds
+#[derive(Default)]
+struct Stage {
+  m: std::sync::Mutex<StageSt>,
+  cv: std::sync::Condvar,
+}
+#[derive(Default)]
+struct StageSt {
+  armed: bool,
+  paused: bool,
+  released: bool,
+}
+
+fn send_op(port: u16, op: &Value) -> bool {
+  let r = if let Some(d) = op.get("add") {
+    simple(port, "POST", "/add", Some("application/x-ndjson"), format!("{d}\n").as_bytes())
+  } else if let Some(d) = op.get("bulk") {
+    post_json(port, "/bulk", &json!({"docs": [d]}))
+  } else {
+    post_json(port, "/delete", &json!({"ids": [op["delete"].clone()]}))
+  };
+  let st = r.status.unwrap_or(0);
+  (200..300).contains(&st) && r.json().map(|j| j["queued"] == json!(1)).unwrap_or(false)
+}
+
+fn model_req(op: &Value) -> Value {
+  if let Some(d) = op.get("add") {
+    json!({"kind": "add", "docs": [d]})
+  } else if let Some(d) = op.get("bulk") {
+    json!({"kind": "bulk", "docs": [d]})
+  } else {
+    json!({"kind": "delete", "ids": [op["delete"].clone()]})
+  }
+}
+
+fn run_concurrent(drv: &mut Driver, case: &Value, s: &mut Summary) {
+  use std::sync::atomic::{AtomicBool, AtomicU64, Ordering};
+  use std::sync::Arc;
+  use std::time::{Duration, Instant};
+  let schema = schema_of(case["schema"].as_u64().unwrap_or(0));
+  let refresh = case["refresh_on_commit"] == json!(true);
+  let clients: Vec<Vec<Value>> = case["clients"].as_array().map(|a| a.iter().map(|c| c.as_array().cloned().unwrap_or_default()).collect()).unwrap_or_default();
+  let rounds = case["staged_rounds"].as_u64().unwrap_or(0) as usize;
+  let tmp = scratch();
+  let dir = tmp.path().join("idx");
+  let sv = match start_server(&dir, refresh, &schema) {
+    Ok(sv) => sv,
+    Err(e) => {
+      s.disagree("http.server-start", case, json!(e), json!(null));
+      return;
+    }
+  };
+  let port = sv.port;
+  let stage = Arc::new(Stage::default());
+  {
+    let st = stage.clone();
+    searchlite_core::storage::verif::install_points(
+      dir.clone(),
+      Arc::new(move |_root, kind, name| {
+        if kind == "exit" && name == "writer.new" {
+          let mut g = st.m.lock().unwrap();
+          if g.armed {
+            g.armed = false;
+            g.paused = true;
+            st.cv.notify_all();
+            let deadline = Instant::now() + Duration::from_secs(3);
+            while !g.released && Instant::now() < deadline {
+              g = st.cv.wait_timeout(g, Duration::from_millis(50)).unwrap().0;
+            }
+          }
+        }
+      }),
+    );
+  }
+
+  // ---- storm: clients write while one thread commits in a tight loop ----
+  let done = AtomicBool::new(false);
+  let commits = AtomicU64::new(0);
+  let commit_errors = AtomicU64::new(0);
+  let mut acked: Vec<Vec<(Value, bool)>> = Vec::new();
+  std::thread::scope(|sc| {
+    let committer = sc.spawn(|| {
+      while !done.load(Ordering::SeqCst) {
+        let r = simple(port, "POST", "/commit", None, b"");
+        if r.status == Some(200) {
+          commits.fetch_add(1, Ordering::SeqCst);
+        } else {
+          commit_errors.fetch_add(1, Ordering::SeqCst);
+        }
+      }
+    });
+    let hs: Vec<_> = clients.iter().map(|ops| sc.spawn(move || ops.iter().map(|op| (op.clone(), send_op(port, op))).collect::<Vec<_>>())).collect();
+    for h in hs {
+      acked.push(h.join().unwrap_or_default());
+    }
+    done.store(true, Ordering::SeqCst);
+    let _ = committer.join();
+  });
+
+  // ---- staged rounds: an /add is held right after its writer was created (both locks held in
+  // the code as it is) while a /commit arrives; then the /add goes on and is acknowledged ----
+  let mut staged: Vec<(Value, bool)> = Vec::new();
+  let mut paused_rounds = 0usize;
+  for r in 0..rounds {
+    let op = json!({"add": {"_id": format!("s-{r}"), "body": format!("staged v{r}")}});
+    {
+      let mut g = stage.m.lock().unwrap();
+      *g = StageSt { armed: true, paused: false, released: false };
+    }
+    let ok = std::thread::scope(|sc| {
+      let a = sc.spawn(|| send_op(port, &op));
+      let t0 = Instant::now();
+      {
+        let mut g = stage.m.lock().unwrap();
+        while !g.paused && t0.elapsed() < Duration::from_secs(3) {
+          g = stage.cv.wait_timeout(g, Duration::from_millis(20)).unwrap().0;
+        }
+        if g.paused {
+          paused_rounds += 1;
+        }
+      }
+      let c = sc.spawn(|| simple(port, "POST", "/commit", None, b"").status == Some(200));
+      std::thread::sleep(Duration::from_millis(25));
+      {
+        let mut g = stage.m.lock().unwrap();
+        g.armed = false;
+        g.released = true;
+        stage.cv.notify_all();
+      }
+      let ok = a.join().unwrap_or(false);
+      if c.join().unwrap_or(false) {
+        commits.fetch_add(1, Ordering::SeqCst);
+      } else {
+        commit_errors.fetch_add(1, Ordering::SeqCst);
+      }
+      ok
+    });
+    staged.push((op, ok));
+  }
+  searchlite_core::storage::verif::uninstall_points(&dir);
+  acked.push(staged);
+
+  // ---- quiesce, final commit, observe ----
+  let fin = simple(port, "POST", "/commit", None, b"");
+  let contents = http_contents(port);
+  let ctx = json!({"case": case});
+  s.add("concurrent.requests", acked.iter().map(|c| c.len() as u64).sum());
+  s.add("concurrent.commits-completed", commits.load(Ordering::SeqCst));
+  s.add("concurrent.staged-rounds-paused", paused_rounds as u64);
+  let nontrivial = commits.load(Ordering::SeqCst) >= 2 + rounds as u64 && paused_rounds == rounds;
+  s.case(case, nontrivial);
+  if fin.status != Some(200) || commit_errors.load(Ordering::SeqCst) > 0 {
+    s.fail("http.concurrent.commit-failed", "a /commit was not answered 200 during the concurrent stream", &ctx, json!({"final": fin.status, "errors": commit_errors.load(Ordering::SeqCst), "body": fin.body_text()}));
+    return;
+  }
+  let contents = match contents {
+    Ok(c) => c,
+    Err(e) => {
+      s.fail("http.search-failed", "match_all through /search failed or returned an id twice", &ctx, json!(e));
+      return;
+    }
+  };
+
+  // ---- finder: every acknowledged write is applied (per-client order; id ranges are disjoint) ----
+  let mut expect: BTreeMap<String, Option<Value>> = BTreeMap::new();
+  let mut uncertain: Vec<String> = Vec::new();
+  let mut mreqs: Vec<Value> = Vec::new();
+  for client in &acked {
+    for (op, ok) in client {
+      let (id, doc) = if let Some(d) = op.get("add").or(op.get("bulk")) { (d["_id"].as_str().unwrap_or("").to_string(), Some(d.clone())) } else { (op["delete"].as_str().unwrap_or("").to_string(), None) };
+      if *ok {
+        expect.insert(id, doc);
+        mreqs.push(model_req(op));
+      } else {
+        s.count("concurrent.unacknowledged-write");
+        uncertain.push(id);
+      }
+    }
+  }
+  let mut cache: HashMap<String, Result<Value, String>> = HashMap::new();
+  let (mut missing, mut stale, mut undeleted, mut foreign) = (Vec::new(), Vec::new(), Vec::new(), Vec::new());
+  for (id, want) in &expect {
+    if uncertain.contains(id) {
+      continue;
+    }
+    match (want, contents.get(id)) {
+      (Some(_), None) => missing.push(id.clone()),
+      (Some(d), Some(have)) => {
+        if let Ok(w) = ref_stored(&schema, d, &mut cache) {
+          if &w != have {
+            stale.push(id.clone());
+          }
+        }
+      }
+      (None, Some(_)) => undeleted.push(id.clone()),
+      (None, None) => {}
+    }
+  }
+  for id in contents.keys() {
+    if !expect.contains_key(id) && !uncertain.contains(id) {
+      foreign.push(id.clone());
+    }
+  }
+  if !(missing.is_empty() && stale.is_empty() && undeleted.is_empty() && foreign.is_empty()) {
+    s.fail(
+      "http.concurrent.acked-write-lost",
+      "after concurrent acknowledged writes and commits, quiescence and a final /commit the contents lack acknowledged adds / hold stale versions / still hold documents whose deletion was acknowledged",
+      &ctx,
+      json!({"acknowledged_adds_missing": missing, "stale_versions": stale, "acknowledged_deletes_not_applied": undeleted, "unknown_ids": foreign,
+             "acknowledged_writes": expect.len(), "commits_completed": commits.load(Ordering::SeqCst), "staged_rounds_paused": paused_rounds}),
+    );
+  }
+
+  // ---- correspondence: the serial order client by client, then /commit (SL.HttpSched:
+  // lock-first interleavings are serial; disjoint id ranges make every such order equivalent) ----
+  if uncertain.is_empty() {
+    mreqs.push(json!({"kind": "commit"}));
+    let m = drv.call("C23", json!({"op": "run", "repaired": repaired(), "schema": schema, "reqs": mreqs}));
+    let last = m["steps"].as_array().and_then(|a| a.last().cloned()).unwrap_or(Value::Null);
+    if m["ok"] != json!(true) {
+      s.disagree("http.driver", &ctx, json!(null), m);
+    } else if model_contents(&last["contents"]) != contents {
+      let mc = model_contents(&last["contents"]);
+      let only_model: Vec<&String> = mc.keys().filter(|k| !contents.contains_key(*k)).collect();
+      let only_impl: Vec<&String> = contents.keys().filter(|k| !mc.contains_key(*k)).collect();
+      s.disagree("http.concurrent.contents", &ctx, json!({"ids_only_in_impl": only_impl, "n": contents.len()}), json!({"ids_only_in_model": only_model, "n": mc.len()}));
+    }
+  }
+}
+
 impl Prop for C23 {
   fn id(&self) -> &'static str {
     "C23"
   }
   fn rule(&self) -> &'static str {
-    "case = (schema variant, refresh-on-commit flag, 12..36 raw HTTP requests: /add NDJSON and /bulk bodies with valid batches, batches containing a document add_documents rejects (missing/non-string/blank _id, wrong field type, null, unknown field) at a random position, unparsable lines/bodies, empty bodies; /delete with valid, unknown, invalid and malformed ids; /commit, /refresh, /compact, /search) against one live in-process server; after EVERY request response class, pending operations of wal.log and /search contents are compared with the model and the finder predicates are evaluated; a case is non-trivial when some successful /commit applied operations of at least two acknowledged requests AND some request was rejected while acknowledged operations were pending"
+    "case = (schema variant, refresh-on-commit flag, 12..36 raw HTTP requests: /add NDJSON and /bulk bodies with valid batches, batches containing a document add_documents rejects (missing/non-string/blank _id, wrong field type, null, unknown field) at a random position, unparsable lines/bodies, empty bodies; /delete with valid, unknown, invalid and malformed ids; /commit, /refresh, /compact, /search) against one live in-process server; after EVERY request response class, pending operations of wal.log and /search contents are compared with the model and the finder predicates are evaluated; a case is non-trivial when some successful /commit applied operations of at least two acknowledged requests AND some request was rejected while acknowledged operations were pending.  Every 12th case is CONCURRENT: 3 client threads send single-document /add, /bulk and /delete requests on disjoint id ranges while another thread loops /commit (storm), then staged rounds hold an /add between writer creation and its append (pause point `exit writer.new`) while a /commit is sent, then everything quiesces, a final /commit, and the contents must hold every acknowledged add (last version per id) and no acknowledged delete (finder), and equal the model's contents for the serial order client by client (correspondence); non-trivial when at least two /commit completed during the storm and every staged round paused"
   }
   fn count(&self, tier: Tier) -> usize {
     tier.pick(60, 2000)
   }
-  fn gen(&self, rng: &mut Rng, _tier: Tier, _i: usize) -> Value {
+  fn gen(&self, rng: &mut Rng, _tier: Tier, i: usize) -> Value {
+    if i % 12 == 11 {
+      return gen_concurrent(rng);
+    }
     let n = 12 + rng.below(25);
     let mut version = 0u64;
     let reqs: Vec<Value> = (0..n).map(|_| gen_request(rng, &mut version)).collect();
@@ -364,6 +630,10 @@ impl Prop for C23 {
   }
 
   fn run_case(&self, drv: &mut Driver, case: &Value, s: &mut Summary) {
+    if case["kind"] == json!("concurrent") {
+      run_concurrent(drv, case, s);
+      return;
+    }
     let schema = schema_of(case["schema"].as_u64().unwrap_or(0));
     let refresh = case["refresh_on_commit"] == json!(true);
     let reqs = case["reqs"].as_array().cloned().unwrap_or_default();
